@@ -66,8 +66,8 @@ type Fn struct {
 
 type Tup struct{ E []Val }
 
-func sc(t, s string) Sc { return Sc{t, s} }
-func scInt(t string) Sc { return Sc{t, SInt} }
+func sc(t, s string) Sc  { return Sc{t, s} }
+func scInt(t string) Sc  { return Sc{t, SInt} }
 func scBool(t string) Sc { return Sc{t, SBool} }
 
 // liftSort wraps base in arrays for the lift stack (outermost first).
@@ -347,18 +347,18 @@ var refTypes = map[string]bool{
 
 // objTypes are external types modelled as ghost objects.
 var objTypes = map[string]string{
-	"bufio.Reader":    "bufio.Reader",
-	"bufio.Scanner":   "bufio.Scanner",
-	"bytes.Buffer":    "bytes.Buffer",
-	"strings.Builder": "strings.Builder",
+	"bufio.Reader":        "bufio.Reader",
+	"bufio.Scanner":       "bufio.Scanner",
+	"bytes.Buffer":        "bytes.Buffer",
+	"strings.Builder":     "strings.Builder",
 	"encoding/csv.Reader": "csv.Reader",
-	"io.Writer":       "io.Writer",
-	"io.Reader":       "io.Reader",
-	"io.ReadCloser":   "io.Reader",
-	"regexp.Regexp":   "regexp.Regexp",
+	"io.Writer":           "io.Writer",
+	"io.Reader":           "io.Reader",
+	"io.ReadCloser":       "io.Reader",
+	"regexp.Regexp":       "regexp.Regexp",
 	"github.com/fluhus/gostuff/minhash.MinHash[uint64]": "minhash.MinHash",
 	"github.com/fluhus/gostuff/minhash.MinHash[T]":      "minhash.MinHash",
-	"hash.Hash64":     "hash.Hash64",
+	"hash.Hash64":                          "hash.Hash64",
 	"github.com/fluhus/gostuff/aio.Reader": "io.Reader",
 }
 
